@@ -60,6 +60,20 @@ class _patched:
             del self.fr.int
 
 
+class _str_compare:
+    """`address == "MASK"` on an integer: CPython's `int.__eq__` returns NotImplemented for a `str` operand and the
+    comparison is False (True for `!=`); the tracer's `SInt` would refuse the operand, so for the duration of a
+    trace it answers a `str` operand the way `int` does (anything else goes to the tracer as before)."""
+    def __enter__(self):
+        self.eq, self.ne = st.SInt.__eq__, st.SInt.__ne__
+        eq, ne = self.eq, self.ne
+        st.SInt.__eq__ = lambda a, b: NotImplemented if isinstance(b, str) else eq(a, b)
+        st.SInt.__ne__ = lambda a, b: NotImplemented if isinstance(b, str) else ne(a, b)
+
+    def __exit__(self, *a):
+        st.SInt.__eq__, st.SInt.__ne__ = self.eq, self.ne
+
+
 def _shim_selftest(rng):
     for _ in range(3000):
         n = rng.randrange(0, 5)
@@ -146,5 +160,68 @@ def generate(repo):
         out.append("def %sKeys : List (Nat × Nat) := [%s]\n" % (name, ", ".join(
             "(%d, %d)" % (getattr(c, "devicetype", 0), c._cmdval) for c in classes)))
         summ[name] = {"paths": rep.npaths, "classes": len(classes)}
+    # --- the two constructor families that compute the second byte from an address -----------------------------
+    def short_members():
+        return [c for c in walk(gg._SpecialCommand) if not c.__name__.startswith("_")
+                and c.__init__ is gg._ShortAddrSpecialCommand.__init__ and isinstance(c._cmdval, int)]
+
+    def mk_short(cls, mask):
+        def call(a):
+            o = object.__new__(cls)
+            o._cmdval = a["cmdval"]
+            with _patched(), _str_compare():
+                cls.__init__(o, "MASK" if mask else a["address"])
+            return o.frame.as_integer
+        return call
+
+    def mk_init(cls, broadcast, with_addr):
+        def call(a):
+            o = object.__new__(cls)
+            o._cmdval = a["cmdval"]
+            with _patched():
+                cls.__init__(o, broadcast=broadcast, address=a["address"] if with_addr else None)
+            return o.frame.as_integer
+        return call
+
+    shorts = short_members()
+    inits = [c for c in [gg.Initialise] + list(walk(gg.Initialise)) if c.__init__ is gg.Initialise.__init__]
+    if not shorts or not inits:
+        raise RuntimeError("short-address special command families not found")
+    ADDRS = [-1, 0, 1, 31, 62, 63, 64, 127, 128, 255, 1 << 20]
+    fams = [
+        ("shortSpecial", shorts, ["cmdval", "address"], lambda c: mk_short(c, False),
+         lambda c, e: c(e["address"]), "_ShortAddrSpecialCommand.__init__(address) with an integer address"),
+        ("shortSpecialMask", shorts, ["cmdval"], lambda c: mk_short(c, True),
+         lambda c, e: c("MASK"), "_ShortAddrSpecialCommand.__init__('MASK')"),
+        ("initialiseAddr", inits, ["cmdval", "address"], lambda c: mk_init(c, False, True),
+         lambda c, e: c(address=e["address"]), "Initialise.__init__(broadcast=False, address=<int>)"),
+        ("initialiseBroadcastAddr", inits, ["cmdval", "address"], lambda c: mk_init(c, True, True),
+         lambda c, e: c(broadcast=True, address=e["address"]), "Initialise.__init__(broadcast=True, address=<int>)"),
+        ("initialiseBroadcast", inits, ["cmdval"], lambda c: mk_init(c, True, False),
+         lambda c, e: c(broadcast=True), "Initialise.__init__(broadcast=True)"),
+        ("initialiseUnaddressed", inits, ["cmdval"], lambda c: mk_init(c, False, False),
+         lambda c, e: c(), "Initialise.__init__() : gear without a short address"),
+    ]
+    for name, classes, params, mk_, real, doc in fams:
+        rep = st.Entry(name, params, "Int", mk_(classes[0]), doc).trace()
+        for c in classes[1:]:
+            if st.Entry(name, params, "Int", mk_(c), doc).trace().tree != rep.tree:
+                raise RuntimeError("class %s does not follow the paths of its family %s" % (qn(c), name))
+        for c in classes:
+            for a in (ADDRS if "address" in params else [None]):
+                env = {"cmdval": c._cmdval}
+                if a is not None:
+                    env["address"] = a
+                try:
+                    want = ('ok', real(c, env).frame.as_integer)
+                except Exception as e:  # noqa
+                    want = ('raise', exc_name(e))
+                got = rep.eval_tree(env)
+                if got != want:
+                    raise RuntimeError("trace of %s disagrees with %s(%r): %r %r" % (name, qn(c), a, got, want))
+        out.append(rep.lean())
+        summ[name] = {"paths": rep.npaths, "classes": len(classes)}
+    out.append("def shortSpecialKeys : List (Nat × Nat) := [%s]\n" % ", ".join("(0, %d)" % c._cmdval for c in shorts))
+    out.append("def initialiseKeys : List (Nat × Nat) := [%s]\n" % ", ".join("(0, %d)" % c._cmdval for c in inits))
     out.append("end DaliVerif.Gen.SrcSpecial")
     return "\n".join(out) + "\n", summ
